@@ -324,3 +324,27 @@ Definition valid_utf8b (l : list N) : bool :=
 Definition loc_ok (src : list N) (st : loc) : Prop :=
   l_byte st <= length src /\ is_char_boundary src (l_byte st) = true /\
   (l_line st, l_col st) = linecol src (l_byte st).
+
+(* ------------------------------------------------------------------ the same predicate, evaluated fast *)
+
+(* one left-to-right pass giving the line/column of every offset 0..=|src| (what the lexer's
+   advance! computes incrementally); Proofs.ReportProofs.span_wfb_tbl_ok shows that checking a span
+   against this table is span_wfb *)
+Definition scan_byte (lc : nat * nat) (b : N) : nat * nat :=
+  if N.eqb b 10 then (S (fst lc), 0)
+  else if is_cont b then lc else (fst lc, S (snd lc)).
+
+Fixpoint scan_table (lc : nat * nat) (l : list N) : list (nat * nat) :=
+  lc :: match l with [] => [] | b :: t => scan_table (scan_byte lc b) t end.
+
+Definition span_wfb_tbl (src : list N) (tbl : list (nat * nat)) (sp : span) : bool :=
+  (rstart sp <=? rend sp) && (rend sp <=? length src) &&
+  is_char_boundary src (rstart sp) && is_char_boundary src (rend sp) &&
+  match nth_error tbl (rstart sp), nth_error tbl (rend sp) with
+  | Some s, Some e =>
+      pair_eqb (start_line sp, start_col sp) s && pair_eqb (end_line sp, end_col sp) e
+  | _, _ => false
+  end.
+
+Definition spans_wfb (src : list N) (sps : list span) : bool :=
+  let tbl := scan_table (1, 0) src in forallb (span_wfb_tbl src tbl) sps.
